@@ -761,6 +761,13 @@ func (c *rtCluster) monitors() {
 				acted = true
 				rep.count("runtime:election")
 			case "SEND":
+				if e.A == uint64(protocol.LEAN_HELIX_PREPREPARE) || e.A == uint64(protocol.LEAN_HELIX_NEW_VIEW) {
+					var bid uint64
+					fmt.Sscanf(e.S, "%d", &bid)
+					if bid >= rtLateBase && e.A == uint64(protocol.LEAN_HELIX_NEW_VIEW) {
+						rep.finding("C15", "proposal-after-cancel", fmt.Sprintf("node %d: NEW_VIEW (h=%d v=%d) carries a block whose proposal call returned under a cancelled context", n.id, e.H, e.V), c.replay(n.id))
+					}
+				}
 				if e.A == uint64(protocol.LEAN_HELIX_PREPREPARE) {
 					var bid uint64
 					fmt.Sscanf(e.S, "%d", &bid)
